@@ -344,6 +344,10 @@ def gen(tier, seed):
                       session=[dict(ignore=["list", ["p"]], frozen=None, over=[]), dict(ignore=["list", ["p"]], frozen=None, over=[]),
                                dict(ignore=["tuple", ["p"]], frozen=None, over=[]), dict(ignore=["tuple", ["p"]], frozen=None, over=[])],
                       call_pos=[], call_kw=[["p", "3"], ["x", "41"]]))
+    cases.append(dict(mode="cf", params=[P("x", "pk", "opt"), P("y", "pk", "int", "1")], doc=False, argv=[],
+                      session=[dict(ignore=["absent"], frozen=None, over=[])] * 2, call_pos=[], call_kw=[]))
+    cases.append(dict(mode="main", params=[P("x", "pk", "opt"), P("y", "pk", "int", "1")], doc=False, argv=[],
+                      extra_pos=[], extra_kw=[]))
     for _ in range(n_main):
         cases.append(_gen_main(rng, tier))
     for _ in range(n_main // 12):
@@ -400,7 +404,8 @@ def _fn_source(case):
 
 def _eq_source(fields_params, positional):
     """The hand-written equivalent dataclass: required fields first (a dataclass demands it), same names/annotations/defaults,
-    positional-only parameters as positional fields, an unhashable default through default_factory."""
+    positional-only parameters as positional fields (main), an unhashable default through default_factory; for config_for
+    (positional=False) a parameter without default is declared `field(required=True)`."""
     lines = ["@dataclass", "class Equivalent:"]
     for p in _plain_order(fields_params):
         ann = p.get("eq_ann") or TYPES[p["ty"]][0] or "Any"
@@ -409,6 +414,8 @@ def _eq_source(fields_params, positional):
             args.append(f"default_factory=lambda: {p['default']}" if p["mut"] else f"default={p['default']}")
         if positional and p["kind"] == "po":
             args.append("positional=True")
+        if not positional and p["default"] is None:
+            args.append("required=True")  # config_for: a parameter without default is a required option, Optional[...] included
         if not args:
             lines.append(f"    {p['name']}: {ann}")
         elif len(args) == 1 and args[0].startswith("default="):
